@@ -1050,8 +1050,8 @@ func c17dialGen(r *rand.Rand, thorough bool, emit func(c, cat string)) {
 	// no-claim corners, compared with the model only
 	ns := " ns=dns.example>10.1.2.3,Other.Example.>10.1.2.4"
 	for _, c := range []string{
-		"addr=tls://dns.example da=[::1]",            // bracketed IPv6 dial_addr without port (known corner)
-		"addr=tls://dns.example da=[2001:db8::1]",    //
+		"addr=tls://dns.example da=[::1]",             // bracketed IPv6 dial_addr without port (known corner)
+		"addr=tls://dns.example da=[2001:db8::1]",     //
 		"addr=https://dns.example/dns-query da=[::1]", //
 		"addr=udp://1.2.3.4 da=@x",
 		"addr=quic://1.2.3.4 da=@x",
